@@ -281,12 +281,15 @@ func (s *Server) execDataOpt(c *Conn, argv []string, caching bool) resp.Value {
 	if c != nil {
 		db = c.DB
 	}
+	v := ci.fn(s, c, db, argv)
 	if !ci.write {
+		// Redis remembers the keys of a read after the command has run (call() -> trackingRememberKeys): a key that the
+		// read itself expires lazily invalidates the clients that tracked it before, and this client tracks it from now on
 		for _, k := range ci.keys(argv) {
 			s.trackRead(c, k, caching)
 		}
 	}
-	return ci.fn(s, c, db, argv)
+	return v
 }
 
 // ---- strings
